@@ -1,12 +1,13 @@
 """C06 — configuration of tools/check.py and text of the MANIFEST entry."""
 
 PROP = {
-    "targets": ["Props/C06.vo", "Corr/CorrCore.vo"],
-    "cone": ["BC/Budget.v", "BC/BudgetRun.v", "Bridge/BrVM.v"],
+    "targets": ["Props/C06.vo", "Corr/CorrCore.vo", "Bridge/BrC0809.vo"],
+    "cone": ["BC/Budget.v", "BC/BudgetRun.v", "Bridge/BrVM.v", "Bridge/BrC0809.v"],
     "harness": "c06",
     "mismatch_div": 16,
     "failure_bits": 8,
-    "trusted": ["model VM (BC/VM.v) tied to vm.Run by the executed correspondence (C01/C06 cases) and to the compiler by compile_correct",
+    "trusted": ["purity premise of the functional model (no state survives a Compile / Run call): Bridge/BrC0809.v over the regenerated write / call / package-variable inventory - a cache or other package-level state breaks it",
+                "model VM (BC/VM.v) tied to vm.Run by the executed correspondence (C01/C06 cases) and to the compiler by compile_correct",
                 "verif hook vm.VerifMemory (build tag verif) reading the VM's allocation counter"],
     "assumptions": ["allocation = elements of arrays, maps and ranges built by OpArray/OpMap/OpRange at run time; constants folded at compile time are not counted (property text: 'built during evaluation')",
                     "environment functions are not charged"],
